@@ -11,7 +11,10 @@ def verify_jobs(run, jobs, cross=False):
         c = jb["contract"]
         tag = jb.get("tag") or "%s/%s" % (c.qualname, "c" if jb.get("lang", "py").startswith("C") else "py")
         try:
-            eng = symex.Engine(jb["source"], c, c.file, callees=jb.get("callees") or {})
+            eng = symex.Engine(jb["source"], c, c.file, callees=jb.get("callees") or {}, extra_builtins=jb.get("builtins"), fn_node=jb.get("fn_node"))
+            if jb.get("fn_node") is not None:
+                import ast as _ast
+                eng.tree = _ast.parse(jb["source"])
             obls = eng.run()
             dropped = dict(eng.dropped)
             dropped.update(jb.get("dropped_extra") or {})
